@@ -8,6 +8,10 @@ NASTY = [
     b'{"result":1,"error":null,"id":[]}', b'{"result":1,"error":null,"id":{"a":1}}', b'{"result":null,"error":"e","id":[[1]]}',
     b'[{"jsonrpc":"2.0","result":1,"id":1},{"jsonrpc":"2.0","result":2,"id":"a"}]',
     b'[{"jsonrpc":"2.0","result":1,"id":0},{"jsonrpc":"2.0","result":2,"id":null}]',
+    b'[{"jsonrpc":"2.0","result":1,"id":null},{"jsonrpc":"2.0","result":2,"id":null}]',
+    b'[{"jsonrpc":"2.0","error":{"code":-32700,"message":"Parse error"},"id":null},{"jsonrpc":"2.0","error":{"code":-32700,"message":"Parse error"},"id":null},'
+    b'{"jsonrpc":"2.0","error":{"code":-32700,"message":"Parse error"},"id":null}]',
+    b'[{"result":1,"id":null},{"result":2,"id":null}]', b'[{"jsonrpc":"2.0","result":1,"id":true},{"jsonrpc":"2.0","result":2,"id":false}]',
     b'[{"result":1,"id":0},{"result":2,"id":"0"}]', b'[{"result":1,"id":1.5},{"result":2,"id":true}]',
     b'[' * 100000, b'[' * 3000 + b']' * 3000, b'{"a":' * 5000 + b'1' + b'}' * 5000,
     b'{"jsonrpc":"2.0","id":' + b'9' * 5000 + b',"result":1}', b'{"jsonrpc":"2.0","method":"m","params":[' + b'1' * 4301 + b'],"id":1}',
